@@ -12,7 +12,7 @@ RULE = ("trees {plain, with hard links and symlinks (-S), hostile file names} x 
         "--in-place --no-copy} x program "
         "behaviour {copies input to output, ignores its input, exits 1, writes garbage to $IN (copy mode only), reads $IN "
         "without writing (in-place)} x --cache x {stdout, -o file} x format {default, json}; and remove / link / link "
-        "--soft / dedupe / move with --dry-run (stdout and -o file) x 6 option sets. Oracle: lstat+sha256 inventory incl. "
+        "--soft / dedupe / move with --dry-run (stdout, -o file, and -o with a path that cannot be created - missing directory, an existing directory - or written - /dev/full) x 6 option sets. Oracle: lstat+sha256 inventory incl. "
         "modification times identical before/after; private TMPDIR and HOME empty afterwards; and the shim's call log of "
         "the fclones process contains NO mutating call on a path inside the tree at any time (catches create-then-delete). "
         "Non-trivial = run that read at least one file of the tree; distinct by (tree, mode, behaviour, flags).")
@@ -80,6 +80,10 @@ def cases(tier, seed):
                     if quick and i % 2:
                         continue
                     out.append({"kind": "dry", "tree": t, "op": op, "out": outmode, "opts": opts})
+            # an --output that cannot be created or written: the dry run may fail, it must not turn into a real run
+            for outmode in ("bad_missing_dir", "bad_is_dir", "bad_dev_full"):
+                for opts in (DRY_OPTS[:1] if quick else DRY_OPTS):
+                    out.append({"kind": "dry", "tree": t, "op": op, "out": outmode, "opts": opts})
     return out
 
 
@@ -91,6 +95,13 @@ def evaluate(case):
         outfile = os.path.join(sc.root, "out.txt")
         if case["kind"] == "dry":
             report = D.make_report(sc, ["--min", "0"] + gargs, ["r"])
+        if case["out"] == "bad_missing_dir":
+            outfile = os.path.join(sc.root, "no", "such", "dir", "out.txt")
+        elif case["out"] == "bad_is_dir":
+            outfile = os.path.join(sc.root, "outdir")
+            os.makedirs(outfile)
+        elif case["out"] == "bad_dev_full":
+            outfile = "/dev/full"
         before = C.inventory(sc.tree)
         if case["kind"] == "group":
             args = ["group", "--min", "0"] + gargs + case["targs"] + (["--cache"] if case["cache"] else []) + \
@@ -99,7 +110,7 @@ def evaluate(case):
             res = S.run_with_shim(sc, args, [sc.tree], "mr")
         else:
             target = os.path.join(sc.root, "moved")
-            args = list(D.OPS[case["op"]]) + case["opts"] + ["--dry-run"] + (["-o", outfile] if case["out"] == "file" else []) + \
+            args = list(D.OPS[case["op"]]) + case["opts"] + ["--dry-run"] + (["-o", outfile] if case["out"] != "stdout" else []) + \
                    ([target] if case["op"] == "move" else [])
             feat = {"kind": "tree_modified", "mode": "dry_run", "op": case["op"]}
             res = S.run_with_shim(sc, args, [sc.tree, target], "mr", stdin=report, env_extra={"RAYON_NUM_THREADS": "1"})
